@@ -377,6 +377,9 @@ func (r *Reader) commentMetaline(line []byte) (f feat.Feature, err error) {
 	}
 	switch unsafeString(fields[0]) {
 	case "gff-version":
+		if len(fields) <= 1 {
+			return nil, &csv.ParseError{Line: r.line, Err: ErrBadMetaLine}
+		}
 		v := mustAtoi(fields, 1, r.line)
 		if v > Version {
 			return nil, &csv.ParseError{Line: r.line, Err: ErrNotHandled}
